@@ -47,7 +47,7 @@ class ProgSim(Sim):
     PROBES = ["diamond", "path_length_mismatch", "same_operand_twice", "fanout3", "unbind_2_outputs_used", "frozen_joins_trainable",
               "nonscalar_root_nonuniform_g", "O1_judged", "O3_judged", "O3_skipped_perop_defect", "O4_schedules",
               "gc_between_steps", "forward_fault", "rejected_step", "leaf_without_grad", "float32_node_in_program", "scalar_root_g_none",
-              "multi_contribution_leaf"]
+              "multi_contribution_leaf", "O5_frozen_invariance"]
     RULE = ("one run = one generated DAG program (2-6 leaves, 3-16 steps over the op catalogue, biased per run to a scenario) differentiated "
             "under 1-4 construction orders; distinct = canonical form of the op DAG reachable from the root (op names, sharing pattern, which "
             "leaves require grad) x number of schedules; non-trivial = the root depends on a leaf through at least two op steps")
@@ -354,7 +354,9 @@ class ProgSim(Sim):
         uniq = {}
         for i, t in zip(ev["in"], xs_live):
             uniq.setdefault(i, t)
-        flags = {i: bool(t.requires_grad) for i, t in uniq.items()}
+        # every float operand requires grad here: the screening asks "is this op's VJP right?", not "does it handle this mix of
+        # flags?" - the latter is C03's own clause ("a mix of operands that do and do not require grad") and stays with O3/O5
+        flags = {i: t.data.dtype.kind == "f" for i, t in uniq.items()}
         if not any(flags.values()):
             return None
 
@@ -543,6 +545,32 @@ class ProgSim(Sim):
             st.notes["tree_expansion_raised"] += 1
         st.canon = dag
         st.abs = absum
+
+        # ---- O5: frozen-operand invariance.  Whether OTHER leaves require grad must not change the gradient of the leaves that do:
+        # the same program with every float leaf requiring grad must give the originally trainable leaves the same gradient.
+        frozen = [i for i in G.leaves(reach) if not G.meta[i]["rg"] and G.T[i].data.dtype.kind == "f"]
+        if frozen and rg_leaves:
+            try:
+                with fresh_modes(SG), quiet():
+                    fresh, _ = G.rebuild(root, rg=True)
+                    fresh[root].backward(None if g is None else SG.Tensor(g.copy()))
+                    allrg = self._leaf_grads(G, fresh, rg_leaves)
+            except SimFault:
+                raise
+            except Exception:
+                allrg = None
+                st.notes["o5_allgrad_variant_raised"] += 1
+            if allrg is not None:
+                st.probes["O5_frozen_invariance"] += 1
+                for i in rg_leaves:
+                    a = dag[i] if dag[i] is not None else np.zeros(G.T[i].data.shape)
+                    b = allrg[i] if allrg[i] is not None else np.zeros(G.T[i].data.shape)
+                    ab = absum[i] if absum is not None else np.abs(a) + np.abs(b)
+                    tol = 64 * eps * (ab + st.floor + 1e-30) + 1e-300
+                    if a.shape != b.shape or not np.all(np.abs(a - b) <= tol):
+                        st.fail("C03.frozen_operand_invariance", f"leaf {i}: its gradient changes when OTHER leaves of the same program are made to require grad "
+                                f"(max abs diff {float(np.max(np.abs(a - b))):.3g}): operands that do not require grad are mishandled", leaf=i,
+                                with_frozen_operands=a.tolist(), all_trainable=b.tolist())
 
         # ---- O3: absolute derivative by finite differences of the system's own forward
         if st.knobs["o3"] and not st.low and all(G.T[i].data.ndim >= 1 and G.T[i].data.dtype == np.float64 for i in reach):
